@@ -168,7 +168,7 @@ Merge(self, other, path) ==
     IF badKeys THEN Err("MergeError", path, path)                   \* list.py:133-143
     ELSE IF ~IsComposed(other1) THEN LeafRule(self0, other1)         \* composed.py:285-286
     ELSE
-    LET del     == EffDel(other1)
+    LET del     == EffDel(other1) \/ Mut("PruneAlways")
         self1   == IF del THEN Prune(self0, <<>>, other1, path) ELSE self0
         removed == IF del THEN PrunedPaths(self0, <<>>, other1, path) ELSE {}
     IN
